@@ -28,15 +28,15 @@
    constant folder, a raw Python value left in a node position, in-place mutation
    of a shared node that is visible, fuel exhausted).  Unmod is never a claim.
 
-   The transcription follows what the code DOES (as of /repo d025bfb, i.e. after the repairs
-   cc7fed2 .. d025bfb), including: the counter of `_iftargN` / `_foritN` is incremented
-   AFTER the two branches have been visited and is printed in hexadecimal starting at 2;
-   visit_Subscript / the Pow case of visit_BinOp do not visit their children;
-   Environment.constants is never invalidated (flow-insensitive): a tuple of CONSTANTS
-   recorded for a name is still inlined under a variable index, a tuple with a
-   non-constant element is read through the name; visit_Assign updates the environment
-   BEFORE visiting the value and visits a tuple value twice; every row of a nested tuple
-   annotation is given the length of the row the code looks at (the first one for L[i][j]);
+   The transcription follows what the code DOES (as of /repo e979369, i.e. after the repairs
+   cc7fed2 .. e979369), including: a name starting with `_temptup`, `_iftarg` or `_forit`
+   anywhere in the original function raises before any pass; the counter of `_iftargN` /
+   `_foritN` is incremented AFTER the two branches have been visited and is printed in
+   hexadecimal starting at 2; visit_Subscript / the Pow case of visit_BinOp do not visit
+   their children; Environment.constants is never invalidated (flow-insensitive), but a
+   NAMED tuple under a variable index is read through the name (L[k]), only its length comes
+   from the recorded tuple; visit_Assign updates the environment BEFORE visiting the value
+   and visits a tuple value twice; L[i][j] follows the length of every row of the annotation;
    NameValReplacer also replaces binding occurrences; a multi-target assignment whose value
    is one of its targets goes through `_temptup`; a loop over a name its body re-assigns
    iterates a `_foritN` copy; the else branch of a loop is appended.
